@@ -78,7 +78,7 @@ func Main(c *run.Ctx) {
 	c.Floor("multisets merged and judged", nMerge, 0)
 	for _, f := range []string{"profile: depth > 511", "profile: direct recursion", "profile: indirect recursion", "profile: shared prefix", "profile: shared function at another position",
 		"profile: location without line", "profile: multi-line location", "profile: 0 samples", "profile: depth-0 sample", "profile: multipart parser", "profile: binary parser",
-		"merge: ≥ 4 profiles", "merge: repeated profile", "merge: member deeper than 511", "merge: all permutations", "merge: sql feed (replica)", "merge: sql feed (real service)", "flame graphs checked", "flame graphs asked for with max_nodes below their node count"} {
+		"merge: ≥ 4 profiles", "merge: repeated profile", "merge: member deeper than 511", "merge: all permutations", "merge: sql feed (replica)", "merge: sql feed (real service)", "flame graphs checked", "flame graphs asked for with max_nodes below their node count", "diffs of a selection with itself checked"} {
 		c.Floor(f, 1, 0)
 	}
 }
